@@ -2592,6 +2592,9 @@ fn task_headers(cx: &mut Cx, p: &mut Prng, ebs: &[u8], per_eb: usize) {
 			};
 			let (h, shape) = gen_header(p, eb, hv);
 			rt(cx, &shape, &h);
+			if proof_decodable(&h.pow.proof) {
+				rt(cx, &format!("eb{}|{}", eb, j % 7), &<BlockHeader as PMMRable>::as_elmt(&h));
+			}
 			rt(cx, &format!("eb{}|{}", eb, j % 7), &h.pow);
 			rt(cx, &format!("eb{}|{}", eb, j % 7), &h.pow.proof);
 			if j == 0 && proof_decodable(&h.pow.proof) {
@@ -3226,6 +3229,11 @@ fn task_bitmap(cx: &mut Cx, p: &mut Prng, rounds: usize, big: bool) {
 			(7, 100, 4),
 			(8, 200, 4),
 			(6, 9, 3),
+			// occupancy exactly at / next to the mode thresholds (4096 of 65536 set or unset)
+			(6, 64, 5),
+			(6, 64, 6),
+			(6, 64, 7),
+			(6, 64, 8),
 		];
 		if big && r == 0 {
 			plans.push((13, 8192, 4));
@@ -3235,12 +3243,26 @@ fn task_bitmap(cx: &mut Cx, p: &mut Prng, rounds: usize, big: bool) {
 			if cx.expired() {
 				return;
 			}
-			let chunks: Vec<Vec<u16>> = (0..n_chunks)
-				.map(|ci| {
-					let c = if class == 4 { ((ci / 64) as u64 + r as u64) % 4 } else { class };
-					gen_chunk_bits(p, c)
-				})
-				.collect();
+			let chunks: Vec<Vec<u16>> = if class >= 5 {
+				// exactly 4095 / 4096 bits set (classes 5, 6) or unset (classes 7, 8), spread over the block
+				let k = if class % 2 == 1 { 4095 } else { 4096 };
+				let chosen: HashSet<usize> = distinct_idx(p, 65536, k).into_iter().collect();
+				(0..64usize)
+					.map(|ci| {
+						(0..1024usize)
+							.filter(|b| chosen.contains(&(ci * 1024 + b)) == (class <= 6))
+							.map(|b| b as u16)
+							.collect()
+					})
+					.collect()
+			} else {
+				(0..n_chunks)
+					.map(|ci| {
+						let c = if class == 4 { ((ci / 64) as u64 + r as u64) % 4 } else { class };
+						gen_chunk_bits(p, c)
+					})
+					.collect()
+			};
 			let idx = p.below(5);
 			let offset = idx << height;
 			let seg = Segment::from_parts(
@@ -4121,7 +4143,7 @@ fn main() {
 	vcommon::monitor::install_panic_hook();
 	let thorough = run.tier == vcommon::Tier::Thorough;
 	// work multiplier: tiers differ in budgets only
-	let mult: f64 = if san { 0.4 } else if thorough { 32.0 } else { 4.0 };
+	let mult: f64 = if san { 0.4 } else if thorough { 64.0 } else { 8.0 };
 	let sc = |base: usize| -> usize { ((base as f64 * mult).round() as usize).max(1) };
 	let budget = Duration::from_secs(if san { 60 } else { run.tier.pick(75, 660) });
 	let deadline = Instant::now() + budget;
@@ -4227,15 +4249,16 @@ fn main() {
 				task_p2p(&mut cx, &mut p, pools, n);
 			}),
 		);
-		let r = sc(1);
-		let big = k == 0 && !san;
-		add(
-			format!("bitmap|{}", ct_name(ct)),
-			Box::new(move |run, mut p, _pools, dl, name| {
-				let mut cx = Cx::new(run, ct, dl).named(name);
-				task_bitmap(&mut cx, &mut p, r, big);
-			}),
-		);
+		for j in 0..sc(1) {
+			let big = k == 0 && j == 0 && !san;
+			add(
+				format!("bitmap|{}|{}", ct_name(ct), j),
+				Box::new(move |run, mut p, _pools, dl, name| {
+					let mut cx = Cx::new(run, ct, dl).named(name);
+					task_bitmap(&mut cx, &mut p, 1, big);
+				}),
+			);
+		}
 	}
 	let nb = if san { 5 } else { run.tier.pick(15, 45) };
 	add(
@@ -4316,7 +4339,7 @@ fn finish(run: &Run, san: bool) -> ! {
 
 	// minimum observations
 	let div: u64 = if san { 10 } else { 1 };
-	let per_version: [(&str, u64); 44] = [
+	let per_version: Vec<(&str, u64)> = vec![
 		("KernelFeatures", 4000),
 		("TxKernel", 1000),
 		("Input", 200),
@@ -4361,12 +4384,22 @@ fn finish(run: &Run, san: bool) -> ! {
 		("OutputBitmapSegmentResponse", 20),
 		("Headers", 10),
 		("UntrustedBlock", 4),
+		("UntrustedBlockHeader", 4),
+		("UntrustedCompactBlock", 4),
+		("Hash", 200),
+		("Difficulty", 200),
+		("HeaderEntry", 500),
+		("PeerError", 150),
+		("PeerData", 150),
+		("ListWrapper", 40),
+		("ListEntry", 80),
+		("SegmentResponse<OutputIdentifier>", 60),
 	];
 	for (fam, min) in per_version.iter() {
 		for v in VERSIONS {
 			let name = format!("rt.{}.v{}", fam, v);
 			// commit-only bodies are not carried below v3, so mined blocks with them only count at v3+
-			let m = if *fam == "UntrustedBlock" && v < 3 { (*min / 2).max(1) } else { *min };
+			let m = if fam.starts_with("Untrusted") && v < 3 { (*min / 2).max(1) } else { *min };
 			run.require(&name, run.counter(&name), (m / div).max(1));
 		}
 	}
@@ -4400,6 +4433,7 @@ fn finish(run: &Run, san: bool) -> ! {
 		("reject.BanReason.unknown_reason_code", 290),
 		("reject.Hand.user_agent_not_utf8", 6),
 		("msg_type_tag.classified_correctly", 512),
+		("rt.MsgHeader.v1", 200),
 		("bitmap_block_mode.raw", 2),
 		("bitmap_block_mode.positive", 4),
 		("bitmap_block_mode.negative", 2),
@@ -4438,6 +4472,17 @@ fn finish(run: &Run, san: bool) -> ! {
 	let pr = Proof { edge_bits: 31, nonces: (0..8).map(|i| (1u64 << 31) - 1 - i).collect() };
 	run.sample(json!({"case": "Proof edge_bits 31, 8 nonces (AutomatedTesting), packed little-endian bit order", "hex": hx(&ref_proof(&pr))}));
 	run.sample(json!({"case": "PeerAddr [::ffff:1.2.3.4]:3414 encodes with family tag 1 and decodes as 1.2.3.4:3414", "hex": hx(&ser::ser_vec(&PeerAddr(SocketAddr::V6(SocketAddrV6::new(Ipv4Addr::new(1,2,3,4).to_ipv6_mapped(), 3414, 0, 0))), pv(1)).unwrap())}));
-	run.sample(json!({"case": "perturbation: body counts (2 inputs, 0 outputs, 1 kernel) with the two 33-byte commit-only inputs swapped (v3)", "shape": "unsorted_inputs_v3"}));
+	{
+		let (c1, c2) = ([8u8; 33], [9u8; 33]);
+		let (lo, hi) = if h_of(&c1) < h_of(&c2) { (c1, c2) } else { (c2, c1) };
+		let mut b = vec![0u8; 32];
+		for c in [2u64, 0, 0] {
+			b.extend_from_slice(&be64(c));
+		}
+		b.extend_from_slice(&hi);
+		b.extend_from_slice(&lo);
+		let refused = matches!(dec_bin::<Transaction>(&b, 3), Dec::Err(_));
+		run.sample(json!({"case": "perturbation: v3 transaction, zero offset, 2 commit-only inputs in descending hash order (must be refused)", "hex": hx(&b), "refused": refused}));
+	}
 	run.finish()
 }
